@@ -39,7 +39,7 @@ class Source:
             if not found:
                 # properties: take the getter (first def with @property)
                 raise Unsupported(f"{self.relpath}: no definition {qualname!r} (contract/code mismatch)")
-            node = found[-1] if not isinstance(found[0], ast.FunctionDef) else found[0]
+            node = found[-1]      # the last definition wins (earlier ones are @overload stubs / property getters are handled by name)
             if isinstance(node, ast.ClassDef):
                 cls = node.name
                 body = node.body
@@ -665,7 +665,7 @@ class Task:
         self.dropped.add("type annotations")
         if s.value is None:
             return [Outcome(Outcome.NORMAL, st)]
-        return self._assign([s.target], s.value, st)
+        return self.st_Assign(ast.copy_location(ast.Assign(targets=[s.target], value=s.value), s), st)
 
     def st_Assign(self, s, st):
         # empty container literals bound to a local whose sort the sidecar declares
@@ -1178,8 +1178,21 @@ class Task:
                 else:
                     bs = [b]
                 for b2 in bs:
+                    iter_start = b2.snapshot()
+                    iter_locals = dict(b2.locals)
                     for o in self.exec_block(node.body, b2):
                         if o.kind in (Outcome.NORMAL, Outcome.CONTINUE):
+                            for name, t in (spec.get("body_post", {}).items() if o.kind == Outcome.NORMAL else []):
+                                e_bp = env_of(o.st, iv)
+                                e_bp["__iter_start__"] = (iter_start, iter_locals)
+                                if isinstance(t, dict):     # guarded form: only on paths where the guard can hold (locals may be unbound elsewhere)
+                                    g = self.spec_bool(o.st, t["when"], e_bp, self.old, self.receiver)
+                                    if not self.feasible(o.st, g):
+                                        continue
+                                    goal = z3.Implies(g, self.spec_bool(o.st, t["then"], e_bp, self.old, self.receiver))
+                                else:
+                                    goal = self.spec_bool(o.st, t, e_bp, self.old, self.receiver)
+                                self.oblige(o.st, f"{lname} iteration post {name}", goal, "loop_body", node.lineno)
                             nxt = iv + 1 if iv is not None else None
                             for name, t in inv.items():
                                 self.oblige(o.st, f"{lname} invariant {name} preserved",
@@ -1608,6 +1621,9 @@ class Task:
             if e is not None:
                 res.append((s2, None, e))
                 continue
+            vals = [V(x.sort.inner, x.comps[1:]) if isinstance(x, V) and isinstance(x.sort, OptSort) and x.sort.inner == STR and
+                    (self.oblige(s2, f"{self.label}: safety: Optional string formatted here is not None (line +{node.lineno - self.fn.lineno})", z3.Not(x.comps[0]), "safety", node.lineno) or True)
+                    else x for x in vals]
             if not all(isinstance(x, V) and x.sort == STR for x in vals):
                 self.dropped.add("f-strings over non-string values (result treated as an opaque string)")
                 res.append((s2, STR.fresh("fstr"), None))
@@ -1835,7 +1851,11 @@ class Task:
                 if e3 is not None:
                     res.append((s3, None, e3)); continue
                 if isinstance(v, VPyTuple):
-                    v = vtuple(v.items)
+                    if isinstance(cont.sort.elem, TupleSort) and len(cont.sort.elem.items) == len(v.items):
+                        v = vtuple([self.wrap_callable(s3, it, es) if isinstance(it, PyVal) and isinstance(es, RefSort) and "callable_of" in self.ctx.classes.get(es.cls, {}) else it
+                                    for it, es in zip(v.items, cont.sort.elem.items)])
+                    else:
+                        v = vtuple(v.items)
                 c2 = cont
                 if cont.sort.elem == NONE:   # first append to an empty literal fixes the element sort
                     c2 = seq_empty(v.sort)
@@ -2281,7 +2301,7 @@ class SpecEval:
         i = n.id
         if i in self.bound:
             return self.bound[i]
-        if i in self.env and self.env[i] is not None and i not in ("__self_cls__", "__loop_entry__"):
+        if i in self.env and self.env[i] is not None and i not in ("__self_cls__", "__loop_entry__", "__iter_start__"):
             return self.env[i]
         if self.self_cls:
             al = self.t.ctx.aliases(self.self_cls)
@@ -2338,6 +2358,14 @@ class SpecEval:
         return VPyTuple([self.ev(e) for e in n.elts])
 
     def s_Subscript(self, n):
+        if isinstance(n.slice, ast.Slice):
+            c = self.ev(n.value)
+            sl = n.slice
+            if isinstance(c, V) and c.sort == STR and sl.step is None and sl.upper is None and isinstance(sl.lower, ast.Constant):
+                k = sl.lower.value
+                ln = z3.Length(c.z)
+                return vstr(z3.If(ln >= k, z3.SubString(c.z, k, ln - k), z3.StringVal("")))
+            raise Unsupported(f"spec slice {ast.unparse(n)}")
         c, i = self.ev(n.value), self.ev(n.slice)
         if isinstance(c, V) and isinstance(c.sort, SeqSort):
             return seq_get(c, coerce(i, INT).z)
@@ -2365,6 +2393,20 @@ class SpecEval:
             return vbool(z3.Select(self.st.alloc, self.ev(n.args[0]).z))
         if name == "entry":
             return self.t.old_locals[n.args[0].id]
+        if name in ("heap_at_iter_start", "local_at_iter_start"):
+            snap = self.env.get("__iter_start__")
+            if snap is None:
+                raise Unsupported(f"{name}() outside a loop body_post")
+            prev, prev_old, prev_env = self.in_old, self.old, self.env
+            if name == "local_at_iter_start":      # the value a local had when this iteration started
+                e2 = dict(prev_env); e2.update(snap[1])
+                self.env = e2
+            else:                                  # current locals, heap/ghost state as it was when this iteration started
+                self.in_old, self.old = True, snap[0]
+            try:
+                return self.ev(n.args[0])
+            finally:
+                self.in_old, self.old, self.env = prev, prev_old, prev_env
         if name == "at_loop_entry":
             snap = self.env.get("__loop_entry__")
             if snap is None:
